@@ -147,6 +147,152 @@ def group_tpci_codes(repo: Repo) -> set | None:
     return out
 
 
+# ------------------------------------------------------------------ (d) built sequence numbers are 4-bit; (e) decoding goes through resolve
+def _nibble(repo: Repo, fi, cfg: CFG, at: int, e: ast.AST, seen: frozenset = frozenset()) -> str | None:
+    """why the integer expression e (at CFG node `at` of fi) lies in 0..15, or None.  Inductive over reaching definitions:
+    a definition that depends on itself is assumed (the base definitions and the step are what is checked)."""
+    if isinstance(e, ast.Constant) and isinstance(e.value, int) and not isinstance(e.value, bool):
+        return "constant" if 0 <= e.value <= 15 else None
+    if isinstance(e, ast.BinOp) and isinstance(e.op, ast.BitAnd):
+        for side in (e.left, e.right):
+            try:
+                k = repo.fold(side, fi.module, fi.cls)
+            except Exception:
+                k = NOFOLD
+            if isinstance(k, int) and not isinstance(k, bool) and 0 <= k <= 15:
+                return f"masked with {k:#x}"
+        return None
+    if isinstance(e, ast.BinOp) and isinstance(e.op, ast.Mod):
+        try:
+            k = repo.fold(e.right, fi.module, fi.cls)
+        except Exception:
+            k = NOFOLD
+        return f"modulo {k}" if isinstance(k, int) and 0 < k <= 16 and _nonneg(repo, fi, cfg, at, e.left, seen) else None
+    if isinstance(e, ast.Attribute) and e.attr == "sequence_number" and ast.unparse(e.value).split(".")[-1] == "tpci":
+        return "sequence number of an existing PDU (4-bit by induction over all construction sites)"
+    if isinstance(e, ast.IfExp):
+        a, b = _nibble(repo, fi, cfg, at, e.body, seen), _nibble(repo, fi, cfg, at, e.orelse, seen)
+        return f"{a} / {b}" if a and b else None
+    if isinstance(e, ast.Name):
+        ds = cfg.reaching_defs()[at].get(e.id)
+        if not ds or -1 in ds:
+            return None
+        why = []
+        for d in sorted(ds):
+            if (d, e.id) in seen:
+                why.append("(inductive)")
+                continue
+            st = cfg.nodes[d].ast
+            if cfg.nodes[d].kind == "stmt" and isinstance(st, (ast.Assign, ast.AnnAssign)) and st.value is not None:
+                ts = st.targets if isinstance(st, ast.Assign) else [st.target]
+                if len(ts) == 1 and isinstance(ts[0], ast.Name):
+                    w = _nibble(repo, fi, cfg, d, st.value, seen | {(d, e.id)})
+                    if w:
+                        why.append(w)
+                        continue
+            return None
+        return "; ".join(sorted(set(why)))
+    if isinstance(e, ast.Call) and call_name(e) == "next" and len(e.args) == 1:
+        # next(<generator attribute>): every writer of the attribute stores a call of a generator function of the class
+        # whose every yield is 4-bit
+        g = e.args[0]
+        if isinstance(g, ast.Attribute) and isinstance(g.value, ast.Name) and g.value.id == "self" and fi.cls is not None:
+            from ..astx import attr_writes
+            ws = [w for w in attr_writes(repo, g.attr, include_mutators=False) if w.func.cls is not None and w.func.cls.name == fi.cls.name and w.func.module.name == fi.module.name]
+            if not ws:
+                return None
+            for w in ws:
+                v = getattr(w.stmt, 'value', None)
+                if not (isinstance(v, ast.Call) and isinstance(v.func, ast.Attribute) and isinstance(v.func.value, ast.Name) and v.func.value.id in ("self", "cls", fi.cls.name)):
+                    return None
+                gen = repo.lookup_method(fi.cls, v.func.attr)
+                if gen is None:
+                    return None
+                gc = CFG(gen.node)
+                ys = [(n, y) for n in gc.nodes if n.ast is not None and n.kind in ("stmt", "test") for y in ast.walk(n.ast) if isinstance(y, ast.Yield)]
+                if not ys or any(isinstance(y, ast.YieldFrom) for n in gc.nodes if n.ast is not None for y in ast.walk(n.ast)):
+                    return None
+                for n, y in ys:
+                    if y.value is None or not _nibble(repo, gen, gc, n.id, y.value):
+                        return None
+            return f"next() of a generator whose every yield is 4-bit ({fi.cls.name}.{v.func.attr})"
+    return None
+
+
+def _nonneg(repo, fi, cfg, at, e, seen) -> bool:
+    if isinstance(e, ast.Constant):
+        return isinstance(e.value, int) and e.value >= 0
+    if isinstance(e, ast.BinOp) and isinstance(e.op, (ast.Add, ast.Mult)):
+        return _nonneg(repo, fi, cfg, at, e.left, seen) and _nonneg(repo, fi, cfg, at, e.right, seen)
+    return _nibble(repo, fi, cfg, at, e, seen) is not None
+
+
+def built_sequence_numbers(chk: Check, repo: Repo, classes: dict) -> None:
+    numbered = {n for n, c in classes.items() if "__init__" in c.methods and any(a.arg == "sequence_number" for a in c.methods["__init__"].node.args.args)}
+    chk.floor("numbered_tpci_classes", len(numbered), 3)
+    sites = 0
+    for fi in repo.all_functions():
+        cands = [c for c in ast.walk(fi.node) if isinstance(c, ast.Call) and call_name(c).split(".")[-1] in numbered]
+        if not cands:
+            continue
+        cfg = CFG(fi.node)
+        for c in cands:
+            holder = [n for n in cfg.nodes if n.ast is not None and n.kind in ("stmt", "test") and any(x is c for x in ast.walk(n.ast))]
+            if not holder:
+                continue  # nested function: analysed as its own FuncInfo
+            arg = next((k.value for k in c.keywords if k.arg == "sequence_number"), c.args[0] if c.args else None)
+            if arg is None:
+                raise AnalysisError(f"{fi.ref}: {ast.unparse(c)} without a sequence number")
+            sites += 1
+            why = _nibble(repo, fi, cfg, holder[0].id, arg)
+            chk.unit(fi)
+            chk.ob("built-sequence-number-is-4-bit", fi.site(c), why is not None, f"{ast.unparse(c)} in {fi.ref}: " + (why or "the sequence number is not provably within 0..15 - to_knx() masks it, so the PDU does not decode back to itself"), key=f"nibble|{fi.ref}|{call_name(c).split('.')[-1]}")
+    chk.floor("numbered PDU construction sites", sites, 5)
+    # no writer of a PDU's sequence number besides the constructors
+    from ..astx import attr_writes
+    ws = [w for w in attr_writes(repo, "sequence_number", include_mutators=False) if not (w.func.module.name == M and w.func.qualname.endswith(".__init__")) and w.receiver != "self" or (w.func.module.name == M and not w.func.qualname.endswith(".__init__"))]
+    chk.ob("built-sequence-number-is-4-bit", "xknx", not ws, f"writes of <pdu>.sequence_number outside the constructors: {[w.func.ref for w in ws]}", key="nibble|writers")
+
+
+def decode_goes_through_resolve(chk: Check, repo: Repo, classes: dict) -> None:
+    """every TPCI a frame parser hands on is what TPCI.resolve returned for the frame's own octet and destination."""
+    fi = repo.func("xknx.cemi.cemi_frame", "CEMILData.from_knx")
+    chk.unit(fi)
+    cfg = CFG(fi.node)
+    found = 0
+    for n in cfg.nodes:
+        if n.ast is None or n.kind not in ("stmt", "test"):
+            continue
+        for c in ast.walk(n.ast):
+            if isinstance(c, ast.Call):
+                kw = next((k.value for k in c.keywords if k.arg == "tpci"), None)
+                if kw is None:
+                    continue
+                found += 1
+                v = cfg.symbolic(n.id, kw)
+                ok = isinstance(v, ast.Call) and call_name(v) == "TPCI.resolve"
+                detail = f"tpci handed to {call_name(c)}: {ast.unparse(v)[:160]}"
+                if ok:
+                    args = {k.arg: k.value for k in v.keywords}
+                    names = [a.arg for a in repo.func(M, "TPCI.resolve").node.args.args[1:]]
+                    for i, a in enumerate(v.args):
+                        args[names[i]] = a
+                    raw = args.get("raw_tpci")
+                    ok = isinstance(raw, ast.Subscript) and isinstance(raw.slice, ast.Constant) and raw.slice.value == 0 and not any(isinstance(a, ast.Constant) for a in args.values())
+                    detail += "" if ok else " - resolve() does not receive the frame's first TPDU octet and computed destination flags"
+                chk.ob("decoding-goes-through-resolve", fi.site(c), ok, detail, key="resolve|cemi")
+    if not found:
+        raise AnalysisError("CEMILData.from_knx: no tpci= construction found")
+    # nobody else constructs a transport PDU while parsing: TPCI classes are instantiated only in resolve, and where the
+    # library builds outgoing telegrams (not in any from_knx)
+    for f in repo.all_functions():
+        if f.node.name != "from_knx" or f.module.name == M:
+            continue
+        bad = [ast.unparse(c) for c in ast.walk(f.node) if isinstance(c, ast.Call) and call_name(c).split(".")[-1] in classes and call_name(c).split(".")[-1] != "TPCI"]
+        if bad:
+            chk.ob("decoding-goes-through-resolve", f.site(), False, f"{f.ref} constructs {bad} itself", key=f"resolve|direct|{f.ref}")
+
+
 def run(chk: Check, repo: Repo) -> None:
     fi, classes, resolve = _mk_resolver(chk, repo)
     chk.floor("tpci_classes", len(classes), 9)
@@ -210,4 +356,5 @@ def run(chk: Check, repo: Repo) -> None:
     eqm = repo.lookup_method(repo.cls(M, "TPCI"), "__eq__")
     chk.ob("pdu-equality", fi.site(), eqm is not None and "self.__class__" in ast.unparse(eqm.node) and "sequence_number" in ast.unparse(eqm.node), "TPCI.__eq__ compares class and sequence number", key="pdu-eq")
     chk.rule("E7 decision table of TPCI.resolve over bit-field cells (control, numbered, seq in {0,1,other}, flags, destination kind) composed with E2 bit-record evaluation of each class's to_knx")
-    chk.assume("sequence numbers passed to TDataConnected/TAck/TNak constructors are 4-bit (to_knx masks with 0xF; resolve produces 4-bit values)")
+    built_sequence_numbers(chk, repo, classes)
+    decode_goes_through_resolve(chk, repo, classes)
